@@ -31,11 +31,13 @@ func (h *Header[T]) IsPresent() bool {
 
 // Removes the matching header from the given HTTP header map and sets the value of this Header to nil.
 func (h *Header[T]) SyncRemove(headers http.Header) {
+	// The header line goes in any case: a value that did not parse (or whose first value
+	// is empty) is not recorded here, but it is still in the map and would be forwarded.
+	delete(headers, h.name)
 	if h.value.IsNone() {
 		return
 	}
 
-	delete(headers, h.name)
 	h.value = typeutils.None[T]()
 	slog.Debug("Removed header from request:", "header", h.name)
 }
